@@ -87,8 +87,9 @@ def token_cases(ctx, docs):
         # reader failures
         for _ in range(2 if quick else 6):
             n += 1
-            sc = [(r.choice([1, 3, 100, 1024]), 0) for _ in range(r.randrange(0, 6))] + [(1, 1)]
-            cases.append('(case k%d tokens x%s (sched %s) (ewd %d))' % (n, doc.hex(), ' '.join('(%d %d)' % s for s in sc), r.randrange(2)))
+            sc = [(r.choice([1, 3, 100, 1024]), 0) for _ in range(r.randrange(0, 6))] + [(r.choice([0, 1, 7, 2000]), 1)] + [(r.choice([1, 50]), 0) for _ in range(r.randrange(0, 3))]
+            cases.append('(case k%d tokens x%s (sched %s) (ewd %d) (mode %s))' % (n, doc.hex(), ' '.join('(%d %d)' % s for s in sc), r.randrange(2),
+                                                                                  r.choice(['sticky', 'once', 'oncedata'])))
     return cases
 
 
